@@ -32,7 +32,9 @@ def BOUNDS(tier):
 
 def shards(tier):
     n = 3 if tier == "quick" else 4
-    return [{"name": "filter-%s" % shape_str(sh), "shape": list(sh)} for sh in shapes_upto(n, 1)]
+    out = [{"name": "filter-%s" % shape_str(sh), "shape": list(sh)} for sh in shapes_upto(n, 1)]
+    out += [{"name": "filter-typed-%s" % shape_str(sh), "shape": list(sh), "typed": True} for sh in shapes_upto(n - 1, 1)]
+    return out
 
 
 def params(desc):
@@ -135,8 +137,10 @@ def body(ctx, desc, x):
     exp = expected(shape, s, verdict)
     ctx.mark()
 
+    typed = desc.get("typed", False)
+    bkw = {"kinds": ["k"] * n, "cls": "TypedTree"} if typed else {}
     # --- copying forms (source must stay untouched)
-    tree, nodes = build(shape, labels)
+    tree, nodes = build(shape, labels, **bkw)
     obs0 = B.observe(tree, nodes)
     if s < 0:
         forms = [("filtered", lambda: tree.filtered(pred)), ("copy(predicate)", lambda: tree.copy(predicate=pred))]
@@ -169,7 +173,7 @@ def body(ctx, desc, x):
             return "%s:source-changed" % name
 
     # --- in place
-    tree2, nodes2 = build(shape, labels)
+    tree2, nodes2 = build(shape, labels, **bkw)
     if s < 0:
         tree2.filter(pred)
         got = tree2.children
